@@ -4,6 +4,7 @@ package main
 // C07 wiring (text validity across fragments/controls/chunkings), C08 reader-path control handling.
 
 import (
+	"unicode/utf8"
 	"bytes"
 	"fmt"
 	"strings"
@@ -338,6 +339,21 @@ func genC07b(tier string, r *rng) {
 					run(fmt.Sprintf("rdr %d utf8 %s %d %s nf r:%d r:4096 st nf ra st", st, hx(two), k, fin, len(s)+1))
 				}
 			}
+			// the stream ENDS right behind a non-final fragment - cleanly, with a failure, and with either arriving
+			// together with the fragment's last bytes - for every place the fragment may stop, inside a character or
+			// not: that is never a verdict on the text (the message is not over), only the transport's end
+			if len(s) >= 2 && len(s) <= 12 && utf8.Valid(s) { // (an invalid start is rightly reported as such)
+				for a := 1; a < len(s); a++ {
+					part := encodeStream([]gframe{{false, 0, ws.OpText, s[:a]}}, server, r)
+					for _, fin := range []string{"E", "F", "Ed", "Fd"} {
+						k := []int{0, 1, 3}[(a+si)%3]
+						run(fmt.Sprintf("rdr %d utf8 %s %d %s nf ra st", st, hx(part), k, fin))
+						run(fmt.Sprintf("rdr %d utf8,inter %s %d %s nf r:%d r:64 st", st, hx(part), k, fin, a))
+						run(fmt.Sprintf("rdd %d T %s %d %s %d", st, hx(part), k, fin, si))
+						run(fmt.Sprintf("rm %d %s %d %s", st, hx(part), k, fin))
+					}
+				}
+			}
 			// every split into three fragments for short samples; for long ones a spread of about 120 splits
 			// (the number of splits grows with the square of the length — the thorough tier is sized to minutes)
 			pairs := (len(s) + 1) * (len(s) + 2) / 2
@@ -376,6 +392,10 @@ func genC07b(tier string, r *rng) {
 					run(fmt.Sprintf("rdr %d utf8,inter %s %d %s nf ra st nf ra st nf ra st", st, hx(enc), k, fin))
 					if (a+b)%5 == 0 {
 						run(fmt.Sprintf("rdr %d inter %s %d %s nf ra st nf ra st", st, hx(enc), k, fin)) // check off
+					}
+					if !withCtl && a > 0 {
+						// the same three fragments alone, the continuations consumed by an OnContinuation handler
+						run(fmt.Sprintf("rdoc %d %s %d %s", st, hx(encodeStream(fs[:3], server, r)), k, hx(s)))
 					}
 				}
 			}
